@@ -36,6 +36,19 @@ type wsConn struct {
 	mu     sync.Mutex
 	frames []string // canonical summaries of frames received since the last drain
 	closed bool
+	paused bool // the reader stops reading (a stalled operator)
+}
+
+func (wc *wsConn) isClosed() bool {
+	wc.mu.Lock()
+	defer wc.mu.Unlock()
+	return wc.closed
+}
+
+func (wc *wsConn) pause() {
+	wc.mu.Lock()
+	wc.paused = true
+	wc.mu.Unlock()
 }
 
 const sysProfile = `Teamserver {
@@ -92,17 +105,17 @@ func startSystem(tag string) *sysWorld {
 	go ts.Start()
 	ok := false
 	for i := 0; i < 400; i++ {
-		if cn, err := net.DialTimeout("tcp", fmt.Sprintf("127.0.0.1:%d", port), 50*time.Millisecond); err == nil {
+		if cn, err := net.DialTimeout("tcp", fmt.Sprintf("127.0.0.1:%d", port), ms(50)); err == nil {
 			cn.Close()
 			ok = true
 			break
 		}
-		time.Sleep(10 * time.Millisecond)
+		time.Sleep(ms(10))
 	}
 	if !ok {
 		panic("teamserver did not come up")
 	}
-	time.Sleep(50 * time.Millisecond)
+	time.Sleep(ms(50))
 	theSys = &sysWorld{ts: ts, dir: dir, port: port, conns: map[string]*wsConn{}}
 	return theSys
 }
@@ -135,7 +148,7 @@ func frameSummary(b []byte) string {
 		return "nonjson"
 	}
 	tag := ""
-	for _, k := range []string{"Marker", "Name", "NameID", "Message", "User"} {
+	for _, k := range []string{"Marker", "Name", "NameID", "AgentID", "Message", "User"} {
 		if v, ok := pk.Body.Info[k]; ok {
 			if s, ok := v.(string); ok && s != "" {
 				tag = "/" + strings.ReplaceAll(strings.ReplaceAll(s, " ", "_"), ",", "_")
@@ -155,6 +168,16 @@ func (w *sysWorld) dial(path string) (*wsConn, error) {
 	wc := &wsConn{c: c}
 	go func() {
 		for {
+			wc.mu.Lock()
+			p := wc.paused
+			wc.mu.Unlock()
+			if p {
+				time.Sleep(ms(20)) // the connection is closed by resetVolatile
+				if wc.isClosed() {
+					return
+				}
+				continue
+			}
 			_, msg, err := c.ReadMessage()
 			wc.mu.Lock()
 			if err != nil {
@@ -178,6 +201,26 @@ func (wc *wsConn) drain() (string, bool) {
 		return "-", wc.closed
 	}
 	return strings.Join(f, ","), wc.closed
+}
+
+// settle waits until no connection has received a new frame for 8 polls of 40 ms (at most 5 s).
+func (w *sysWorld) settle() {
+	last, same := -1, 0
+	for i := 0; i < 125 && same < 8; i++ {
+		time.Sleep(ms(40))
+		n := 0
+		for _, wc := range w.conns {
+			wc.mu.Lock()
+			n += len(wc.frames)
+			wc.mu.Unlock()
+		}
+		if n == last {
+			same++
+		} else {
+			same = 0
+		}
+		last = n
+	}
 }
 
 // obsAll drains every connection (in name order) after giving the server time to deliver.
@@ -204,9 +247,12 @@ func (w *sysWorld) obsAll(names []string, wait time.Duration) string {
 func (w *sysWorld) resetVolatile() {
 	for _, wc := range w.conns {
 		wc.c.Close()
+		wc.mu.Lock()
+		wc.closed = true
+		wc.mu.Unlock()
 	}
 	w.conns = map[string]*wsConn{}
-	time.Sleep(30 * time.Millisecond)
+	time.Sleep(ms(30))
 	var ids []any
 	w.ts.Clients.Range(func(k, v any) bool { ids = append(ids, k); return true })
 	for _, k := range ids {
